@@ -610,3 +610,134 @@ func RandomSameKindRequests(rng interface{ Intn(int) int }, n int) []*Request {
 	}
 	return out
 }
+
+// ---- message and enum types from OTHER Go packages ---------------------------------------------------------
+//
+// ForeignTypeCatalogue: every position in which a generator prints the NAME of a type — RPC request, RPC
+// response, field (singular, optional, repeated, map value, oneof member), enum field — filled with a type
+// that lives in another Go package than the service: a well-known type (google.protobuf.Empty, Timestamp,
+// Duration, Struct, Value, Any, FieldMask, the wrappers), a message / enum of an imported user package that
+// is NOT generated in this run (a shared common/v1), and of a second package generated in the same run.
+// protogen qualifies a GoIdent and registers the import; a name printed as a plain string (GoIdent.GoName)
+// is unqualified: `undefined: Empty`, or silently the homonymous type of the service's own package.
+// No annotation is involved: everything here is expected to build, vet and load.
+
+var wellKnownMsgs = []string{"google.protobuf.Empty", "google.protobuf.Timestamp", "google.protobuf.Duration", "google.protobuf.Struct", "google.protobuf.Value",
+	"google.protobuf.ListValue", "google.protobuf.Any", "google.protobuf.FieldMask", "google.protobuf.StringValue", "google.protobuf.Int64Value", "google.protobuf.BoolValue", "google.protobuf.BytesValue"}
+
+func wktShort(fq string) string { return fq[strings.LastIndex(fq, ".")+1:] }
+
+func addImport(f *File, p string) {
+	for _, i := range f.Imports {
+		if i == p {
+			return
+		}
+	}
+	f.Imports = append(f.Imports, p)
+}
+
+func ForeignTypeCatalogue() []*Request {
+	var out []*Request
+	add := func(r *Request, tags ...string) {
+		r.Tags = append([]string{"build", "foreign-type"}, tags...)
+		out = append(out, r)
+	}
+	q := func(id, t string) string { return id + ".v1." + t }
+
+	{ // (1) well-known types as RPC response / request / both, per verb: one service per position
+		id := "bxwkt"
+		f := &File{Messages: []*Message{M("Req", F("id", 1, "string"), F("page", 2, "int32", Query("page", false))), M("Resp", F("ok", 1, "bool"))}}
+		for _, c := range []struct {
+			svc   string
+			verbs []string
+		}{{"Out", []string{"POST", "GET", "DELETE"}}, {"In", []string{"POST", "PUT", "PATCH"}}, {"Both", []string{"POST"}}} {
+			svc := &Service{Name: "Notes" + c.svc, BasePath: "/" + id + "/" + strings.ToLower(c.svc), HasConfig: true}
+			for _, w := range wellKnownMsgs {
+				addImport(f, wktPath(w))
+				for vi, v := range c.verbs {
+					if vi > 0 && !(w == "google.protobuf.Empty" || w == "google.protobuf.Timestamp" || w == "google.protobuf.Struct") {
+						continue // every type with POST; the other verbs with three of them
+					}
+					name := strings.ToUpper(v[:1]) + strings.ToLower(v[1:]) + wktShort(w) + c.svc
+					path := "/" + strings.ToLower(name)
+					switch c.svc {
+					case "Out":
+						if v != "POST" {
+							path += "/{id}"
+						}
+						svc.Methods = append(svc.Methods, RPC(name, q(id, "Req"), w, v, path))
+					case "In":
+						svc.Methods = append(svc.Methods, RPC(name, w, q(id, "Resp"), v, path))
+					default:
+						svc.Methods = append(svc.Methods, RPC(name, w, w, v, path))
+					}
+				}
+			}
+			f.Services = append(f.Services, svc)
+		}
+		add(OneFile(id, id+".v1", f), "well-known")
+	}
+	{ // the minimal published shape: rpc DeleteNote(DeleteNoteRequest) returns (google.protobuf.Empty), no HTTP config at all
+		id := "bxempty"
+		f := &File{Imports: []string{"google/protobuf/empty.proto"}, Messages: []*Message{M("DeleteNoteRequest", F("id", 1, "string"))},
+			Services: []*Service{{Name: "NoteService", Methods: []*Method{{Name: "DeleteNote", In: q(id, "DeleteNoteRequest"), Out: "google.protobuf.Empty"},
+				{Name: "Ping", In: "google.protobuf.Empty", Out: "google.protobuf.Empty"}}}}}
+		add(OneFile(id, id+".v1", f), "well-known")
+		// a local message with the short name of the foreign response type: an unqualified name compiles and means the wrong type
+		id = "bxhomonym"
+		f = &File{Imports: []string{"google/protobuf/empty.proto", "google/protobuf/timestamp.proto"},
+			Messages: []*Message{M("Empty", F("why", 1, "string")), M("Timestamp", F("t", 1, "int64")), M("Req", F("id", 1, "string"))},
+			Services: []*Service{Svc("S", "/"+id, RPC("Drop", q(id, "Req"), "google.protobuf.Empty", "POST", "/drop"), RPC("Local", q(id, "Req"), q(id, "Empty"), "POST", "/local"),
+				RPC("When", q(id, "Req"), "google.protobuf.Timestamp", "GET", "/when/{id}"), RPC("LocalWhen", q(id, "Timestamp"), q(id, "Timestamp"), "POST", "/lwhen"),
+				RPC("Send", "google.protobuf.Empty", q(id, "Empty"), "POST", "/send"))}}
+		add(OneFile(id, id+".v1", f), "well-known")
+	}
+	{ // (2) well-known types as field types of a request / response, every cardinality (no annotation)
+		id := "bxwktfields"
+		var msgs []*Message
+		var tops []string
+		for i, w := range wellKnownMsgs {
+			n := "Has" + wktShort(w)
+			msgs = append(msgs, M(n, F("id", 1, "string"), F("one", 2, "", Msg(w)), F("maybe", 3, "", Msg(w), Opt()), F("many", 4, "", Msg(w), Rep()), F("by", 5, "", Msg(w), MapOf([]string{"string", "int32", "bool"}[i%3])),
+				F("alt", 6, "", Msg(w), InOneof("c")), F("txt", 7, "string", InOneof("c"))).WithOneofs(&Oneof{Name: "c"}))
+			tops = append(tops, n)
+		}
+		svc := &Service{Name: "Echo", BasePath: "/" + id, HasConfig: true}
+		for _, t := range tops {
+			svc.Methods = append(svc.Methods, RPC("Echo"+t, q(id, t), q(id, t), "POST", "/echo/"+t))
+		}
+		add(buildReq(id, nil, msgs, svc), "well-known")
+	}
+
+	// (3) an imported user package that is not generated in this run (shared common/v1)
+	common := func(id string, generate bool) *File {
+		pkg := id + "common.v1"
+		return &File{Path: id + "common/common.proto", Package: pkg, GoPackage: "verifgen/" + id + "common;" + id + "common", Generate: generate,
+			Enums:    []*Enum{E("Currency", "CURRENCY_UNSPECIFIED", "CURRENCY_EUR", "CURRENCY_USD")},
+			Messages: []*Message{M("Empty"), M("Money", F("units", 1, "int64"), F("currency", 2, "", EnumT(pkg+".Currency"))), M("Page", F("size", 1, "int32"), F("token", 2, "string")).WithNested(M("Cursor", F("at", 1, "string"))),
+				M("Status", F("code", 1, "int32"), F("message", 2, "string"))}}
+	}
+	apiFile := func(id string) *File {
+		pkg, cp := id+".v1", id+"common.v1."
+		return &File{Path: id + "/api.proto", Package: pkg, GoPackage: "verifgen/" + id + ";" + id, Generate: true, Imports: []string{id + "common/common.proto"},
+			Messages: []*Message{M("GetReq", F("id", 1, "string"), F("page", 2, "int32", Query("page", false))),
+				M("Invoice", F("id", 1, "string"), F("total", 2, "", Msg(cp+"Money")), F("tip", 3, "", Msg(cp+"Money"), Opt()), F("lines", 4, "", Msg(cp+"Money"), Rep()), F("by", 5, "", Msg(cp+"Money"), MapOf("string")),
+					F("currency", 6, "", EnumT(cp+"Currency")), F("currencies", 7, "", EnumT(cp+"Currency"), Rep()), F("cursor", 8, "", Msg(cp+"Page.Cursor")),
+					F("paid", 9, "", Msg(cp+"Money"), InOneof("settle")), F("note", 10, "string", InOneof("settle")), F("cur", 11, "", EnumT(cp+"Currency"), InOneof("settle"))).WithOneofs(&Oneof{Name: "settle"})},
+			Services: []*Service{Svc("Billing", "/"+id,
+				RPC("GetStatus", pkg+".GetReq", cp+"Status", "GET", "/status/{id}"), RPC("Drop", pkg+".GetReq", cp+"Empty", "DELETE", "/drop/{id}"),
+				RPC("PutMoney", cp+"Money", pkg+".Invoice", "PUT", "/money"), RPC("EchoMoney", cp+"Money", cp+"Money", "POST", "/echo"),
+				RPC("Next", cp+"Page", cp+"Page.Cursor", "POST", "/next"), RPC("EchoInvoice", pkg+".Invoice", pkg+".Invoice", "POST", "/invoice"),
+				&Method{Name: "Bare", In: cp + "Empty", Out: cp + "Status"})}}
+	}
+	add(&Request{ID: "bximported", Files: []*File{common("bximported", false), apiFile("bximported")}}, "imported-package")
+	// (4) the same with both packages generated in one run
+	add(&Request{ID: "bxtwopkg", Files: []*File{common("bxtwopkg", true), apiFile("bxtwopkg")}}, "second-generated-package")
+	{ // two generated packages with a service each, referring to each other's... (b imports a only: no import cycle)
+		id := "bxtwosvc"
+		a := common(id, true)
+		a.Services = []*Service{Svc("Rates", "/rates", RPC("GetRate", a.Package+".Money", a.Package+".Money", "POST", "/rate"))}
+		add(&Request{ID: id, Files: []*File{a, apiFile(id)}}, "second-generated-package")
+	}
+	return out
+}
